@@ -143,7 +143,7 @@ class ModelOrderEngine(Engine):
 
     def plan(self, prop, tier):
         if tier == 'quick':
-            return {'runs': 1200, 'chunk': 4, 'wall_cap': 240, 'determinism_runs': 4, 'hard_s': 300}
+            return {'runs': 900, 'chunk': 4, 'wall_cap': 240, 'determinism_runs': 4, 'hard_s': 300}
         return {'runs': 30000, 'chunk': 8, 'wall_cap': 3000, 'determinism_runs': 8, 'hard_s': 300}
 
     def describe(self, prop):
@@ -230,6 +230,10 @@ class ModelOrderEngine(Engine):
                 idents[ukind] = sorted((str(name), tuple(sorted(attrs))) for name, attrs in mc.indices.items())
             assocs = []
             for ass in comp.associations:
+                if not ass.source_keys:
+                    # an unformalized relationship has no referring side; which participant becomes the
+                    # "source" follows row order and C14 speaks of formalized relationships only
+                    continue
                 assocs.append((ass.rel_id, ass.source_link.to_metaclass.kind, ass.target_link.to_metaclass.kind,
                                tuple(sorted(zip(ass.source_keys, ass.target_keys))),
                                ass.source_link.cardinality, ass.target_link.cardinality,
@@ -240,7 +244,11 @@ class ModelOrderEngine(Engine):
             if name in cfg.get('_ambiguous', ()):
                 continue        # two model elements of that name: which one the symbol table keeps is not promised
             if isinstance(h, tuple) and hasattr(h, '_fields'):
-                symbols[name] = ('enum', tuple((f, getattr(h, f)) for f in h._fields))
+                if all(isinstance(v, int) and not isinstance(v, bool) for v in h):
+                    symbols[name] = ('enum', tuple((f, getattr(h, f)) for f in h._fields))
+                else:
+                    # an external entity: a tuple of callables, compared by the names of its bridges
+                    symbols[name] = ('entity', tuple(sorted(h._fields)))
             elif isinstance(h, (bool, int, float, str)):
                 symbols[name] = ('const', sqlgen.cv(h))
         return symbols
